@@ -1,6 +1,6 @@
 #!/usr/bin/env python3
 """Confirm a seeded change produced by a sub-agent and run the checks against it.
-usage: seed_eval.py <PID> <X> [--all]      (reads /tmp/seed_out/<PID>/<X>, worktree /tmp/wt_<PID>)
+usage: seed_eval.py <PID> <X> [--all]      (reads $SEED_OUT/<PID>/<X> [default /tmp/seed_out], worktree $SEED_WT % PID [default /tmp/wt_%s])
 Steps: clean worktree -> apply patch -> existing suite (must stay 63+58 green) -> demo (must fail)
 -> ./check <PID> --repo worktree (and, with --all, every check) -> revert -> demo (must pass).
 Keeps the change under /verif/seeded/<PID>-<X>/ only if every confirmation succeeded."""
@@ -8,8 +8,8 @@ import json, os, re, shutil, subprocess, sys, time
 
 pid, X = sys.argv[1], sys.argv[2]
 run_all = "--all" in sys.argv
-wt = "/tmp/wt_%s" % pid
-src = "/tmp/seed_out/%s/%s" % (pid, X)
+wt = os.environ.get("SEED_WT", "/tmp/wt_%s") % pid
+src = os.environ.get("SEED_OUT", "/tmp/seed_out") + "/%s/%s" % (pid, X)
 env = dict(os.environ, CARGO_TARGET_DIR=wt + "/target", CARGO_NET_OFFLINE="true")
 
 
